@@ -7,15 +7,15 @@ ROOT = os.path.dirname(os.path.dirname(os.path.abspath(__file__)))
 MC, FE, EX = "model_checking", "fault_enumeration", "exploration"
 
 TABLE = {
-    "C01": (MC, "closure BFS to fixpoint over the real HexaryTrie (all histories over the key/value alphabet, direct + squash_changes batches, prune on/off); every state probed against a dict model",
+    "C01": (MC, "closure BFS to fixpoint over the real HexaryTrie (all histories over the key/value alphabets incl. 32/34/130-byte keys and sentinel values, direct + squash_changes batches, prune on/off); every state probed against a dict model; every pair / triple of consecutive events on ONE live object; live replays; one long fixed-history scale probe",
             "explicit-state model checking of the implementation (closure BFS, dict reference model)"),
-    "C02": (MC, "same closure BFS; after every transition root_hash == independent declarative Yellow-Paper root of the model contents, db[root] == canonical root node; threshold values make 31/32/33-byte nodes occur",
+    "C02": (MC, "same closure BFS; after every transition root_hash == independent declarative Yellow-Paper root of the model contents, db[root] == canonical root node; threshold values make 31/32/33-byte nodes occur (incl. 55-nibble leaves with one-byte values, 55/56-byte values); chains of 3 operations on one live object; failing commit writes; scale probe",
             "explicit-state model checking of the implementation against a declarative MPT oracle"),
     "C03": (FE, "every reachable trie x every probe key x every enumerated corruption of the proof list (sub-lists, permutations, duplicates, single/pair alterations, cross-trie proofs, foreign roots); outcome must be the true value or BadTrieProof",
             "exhaustive fault enumeration over proof lists on all states of a closure BFS"),
     "C04": (FE, "append-only/content-addressed invariant on every transition of the closure BFS; exact-state depth-bounded search of two handles on one shared db re-reading every historical root; every db write position failing",
             "explicit-state exploration + exhaustive write-fault injection"),
-    "C05": (MC, "closure BFS over outer-trie states with commit / abort-at-every-point / abort-by-failing-op / failing-commit-write events; abort must restore (root, db, ref counts) exactly",
+    "C05": (MC, "closure BFS over outer-trie states with commit / abort-at-every-point / abort-by-failing-op / abort by KeyError and by a BaseException / failing-commit-write (plain and KeyError-class) events, batches of length <= 2, nested batches, pairs of events on one live object; abort must restore (root, db, ref counts) exactly; pruning runs carry the C06 invariants; big-batch scale probe",
             "explicit-state model checking with crash-point enumeration"),
     "C06": (MC, "closure BFS over pruning tries incl. committed/aborted batches; in every state db == canonical hashed node set and ref counts == reference-path counts of an independent oracle",
             "explicit-state model checking of the implementation against a declarative node-set oracle"),
